@@ -212,7 +212,7 @@ func (s *session) executeCopyInserts(table string, cols []string, rows [][]strin
 			}
 
 			for _, stmt := range stmts {
-				if err := s.exec(stmt, nil, nil, false); err != nil {
+				if _, err := s.exec(stmt, nil, nil, false); err != nil {
 					s.log.Warningf("COPY INSERT exec error (skipping row): %v", err)
 					continue
 				}
